@@ -177,6 +177,13 @@ broadcast proof fn lemma_filter_sel(g: &Dgo, kind: bool, n: int, pred: spec_fn(i
     }
 }
 
+// The default methods `is_source` / `is_sink` are extracted onto `Dgo` itself, so the blanket impls below (`sinks`,
+// `sources`, `is_isolated`) see them through these contracts.  A representation may override them: the contracts are
+// therefore the trait-level ones the overrides are proved against (matrix_queries, edge_list_queries): `is_sink` returns
+// only for u in V (every impl documents the panic), `is_source` is total on the overrides, so no `v < ord` is stated for it
+// although the default body (via `indegree`) would give it.
+// `degree` computes `indegree + outdegree` in usize: its result can equal the degree only if that fits (`deg <= usize::MAX`,
+// implied by ord <= usize::MAX / 2 + 1: lemma_deg_fits); otherwise the sum panics (debug) or wraps (release).
 impl Dgo {
     /*@fn trait=Indegree name=is_source file=src/op/indegree.rs props=C02,C13
     requires
@@ -225,6 +232,7 @@ impl Dgo {
         u < self.ord(),
         r == (deg(self, u as int) == 1),
     @*/
+
     /*@fn trait=Degree name=max_degree file=src/op/degree.rs dropwhere=Self wrap=max,min props=C02,C13
     requires
         self.wf(),
